@@ -52,10 +52,18 @@ Print Assumptions C18_invalid_range_unshaped.
    terminates only then; under that assumption the fuel given by [write]
    suffices, so RFuel (and RPanic) are excluded by the statement. ---- *)
 
+(* the two-level bucket fill: what one iteration writes (and advances by) is
+   the minimum of the local grant, the global grant and the amount wanted *)
+Theorem C18_chunk_within_both_buckets : forall rl rg amt, 0 < rl -> 0 < rg -> 0 <= amt ->
+  nested rl rg amt = Z.min (Z.min rl rg) amt /\
+  0 <= nested rl rg amt /\ nested rl rg amt <= rl /\ nested rl rg amt <= rg /\ nested rl rg amt <= amt.
+Proof. intros rl rg amt A B C. split; [exact (nested_pos rl rg amt A B C) | exact (nested_bounds rl rg amt A B C)]. Qed.
+Print Assumptions C18_chunk_within_both_buckets.
+
 (* no panic, no out-of-fuel; the close clause in the oracle's form; a forced
    close is the last event and there is at most one *)
 Theorem C18_loop_safe_and_close_spec : forall acts0 thr rs hl lt i g ws s' evs r,
-  StronglySorted by_byte acts0 -> 0 <= hl -> rs > -1 -> (forall k, 0 < g k) ->
+  StronglySorted by_byte acts0 -> 0 <= hl -> rs > -1 -> (forall k, 0 < fst (g k) /\ 0 < snd (g k)) ->
   run g (shaped_start acts0 thr rs hl lt i) ws = (s', evs, r) ->
   r <> RPanic /\ r <> RFuel /\
   close_spec acts0 rs hl (concat ws) (emitted evs) (is_closed r) /\
@@ -70,7 +78,7 @@ Print Assumptions C18_loop_safe_and_close_spec.
    (head ++ body[0 .. k - rs)), the result is the force-close error, ForceClose
    is the last event and occurs once -- for every write split and grant stream. *)
 Theorem C18_close_at_k : forall acts0 thr rs hl lt i g ws s' evs r l1 c l2,
-  StronglySorted by_byte acts0 -> 0 <= hl -> rs > -1 -> (forall k, 0 < g k) ->
+  StronglySorted by_byte acts0 -> 0 <= hl -> rs > -1 -> (forall k, 0 < fst (g k) /\ 0 < snd (g k)) ->
   acts0 = l1 ++ c :: l2 -> kind c = KClose -> count c <> 0 -> rs <= abyte c ->
   Forall (not_live_close rs) l1 ->
   hl + (abyte c - rs) < Zlength (concat ws) ->
@@ -85,7 +93,7 @@ Print Assumptions C18_close_at_k.
    it delivered: Sleep d occurs in the trace with exactly hl + (a - rs) bytes
    delivered before it, i.e. before any later byte. *)
 Theorem C18_halt_sleeps : forall acts0 thr rs hl lt i g ws s' evs r a d,
-  StronglySorted by_byte acts0 -> 0 <= hl -> rs > -1 -> (forall k, 0 < g k) ->
+  StronglySorted by_byte acts0 -> 0 <= hl -> rs > -1 -> (forall k, 0 < fst (g k) /\ 0 < snd (g k)) ->
   run g (shaped_start acts0 thr rs hl lt i) ws = (s', evs, r) ->
   In a acts0 -> kind a = KHalt d -> count a <> 0 -> rs <= abyte a ->
   hl + (abyte a - rs) < Zlength (emitted evs) ->
@@ -96,7 +104,7 @@ Print Assumptions C18_halt_sleeps.
 
 (* the same for every non-close action (bandwidth changes: SetBw b) *)
 Theorem C18_action_at_offset : forall acts0 thr rs hl lt i g ws s' evs r a,
-  StronglySorted by_byte acts0 -> 0 <= hl -> rs > -1 -> (forall k, 0 < g k) ->
+  StronglySorted by_byte acts0 -> 0 <= hl -> rs > -1 -> (forall k, 0 < fst (g k) /\ 0 < snd (g k)) ->
   run g (shaped_start acts0 thr rs hl lt i) ws = (s', evs, r) ->
   In a acts0 -> kind a <> KClose -> eff_count a <> 0 -> rs <= abyte a ->
   hl + (abyte a - rs) < Zlength (emitted evs) ->
@@ -110,7 +118,7 @@ Print Assumptions C18_action_at_offset.
    count - 1 when positive; see Gen_Shape.dec_count); the actions not yet passed
    are untouched and none of them has been crossed. *)
 Theorem C18_counts_decremented : forall acts0 thr rs hl lt i g ws s' evs r,
-  StronglySorted by_byte acts0 -> 0 <= hl -> rs > -1 -> (forall k, 0 < g k) ->
+  StronglySorted by_byte acts0 -> 0 <= hl -> rs > -1 -> (forall k, 0 < fst (g k) /\ 0 < snd (g k)) ->
   run g (shaped_start acts0 thr rs hl lt i) ws = (s', evs, r) ->
   exists done todo, acts0 = done ++ todo /\
     acts s' = map (fun a => if abyte a <? rs then a else dec a) done ++ todo /\
@@ -123,7 +131,7 @@ Print Assumptions C18_counts_decremented.
    any previous context starts from [shaped_start] on that list -- so the
    theorems above apply again to the next response on the connection. *)
 Theorem C18_next_response_same_hypotheses : forall acts0 thr rs hl lt i g ws s' evs r,
-  StronglySorted by_byte acts0 -> 0 <= hl -> rs > -1 -> (forall k, 0 < g k) ->
+  StronglySorted by_byte acts0 -> 0 <= hl -> rs > -1 -> (forall k, 0 < fst (g k) /\ 0 < snd (g k)) ->
   run g (shaped_start acts0 thr rs hl lt i) ws = (s', evs, r) ->
   StronglySorted by_byte (acts s') /\ map abyte (acts s') = map abyte acts0 /\ map kind (acts s') = map kind acts0.
 Proof. exact sorted_after_run. Qed.
@@ -278,10 +286,10 @@ Example C18_example :
   let acts := [mkAct (KHalt 9) 3 1; mkAct (KBw 7) 4 (-1); mkAct KClose 5 1] in
   let s0 := fst (open_ctx true acts [] true 1 2 (Some 4) 0) in
   let ws := [payload 3; skipn 3 (payload 5); skipn 5 (payload 9)] in
-  snd (fst (run (fun _ => 2) s0 ws)) =
+  snd (fst (run (fun _ => (2, 2)) s0 ws)) =
     [Latency 4; Emit (firstn 2 (payload 9)); Emit [ascii_of_nat 67]; Emit [ascii_of_nat 68]; Sleep 9;
      Emit [ascii_of_nat 69]; SetBw 7; Emit [ascii_of_nat 70]; ForceClose]
-  /\ snd (run (fun _ => 2) s0 ws) = RClosed 1.
+  /\ snd (run (fun _ => (2, 2)) s0 ws) = RClosed 1.
 Proof. vm_compute. split; reflexivity. Qed.
 
 (* the hypotheses of C18_close_at_k / C18_halt_sleeps are met by that configuration *)
@@ -290,11 +298,11 @@ Example C18_example_hypotheses :
   StronglySorted by_byte acts /\
   acts = [mkAct (KHalt 9) 3 1; mkAct (KBw 7) 4 (-1)] ++ mkAct KClose 5 1 :: [] /\
   Forall (not_live_close 1) [mkAct (KHalt 9) 3 1; mkAct (KBw 7) 4 (-1)] /\
-  2 + (5 - 1) < Zlength (payload 9) /\ (forall k : nat, 0 < (fun _ : nat => 2) k).
+  2 + (5 - 1) < Zlength (payload 9) /\ (forall k : nat, 0 < fst ((fun _ : nat => (2, 2)) k) /\ 0 < snd ((fun _ : nat => (2, 2)) k)).
 Proof.
   cbn zeta. split.
   - repeat constructor; unfold by_byte; cbn; discriminate.
-  - split; [reflexivity|]. split; [|split; [reflexivity | intros; reflexivity]].
+  - split; [reflexivity|]. split; [|split; [reflexivity | intros; split; reflexivity]].
     constructor; [right; right; discriminate|]. constructor; [right; right; discriminate | constructor].
 Qed.
 
